@@ -100,9 +100,11 @@ package nsqd
 
 //@ func (n *NSQD) SetHealth(err error)
 //@   nochan
-//@   props C01
-//@   trusted
+//@   props C01 C13
+//   (round 4, area E) body verified (was `trusted`): the error is stored in the health cell, where GetError / IsHealthy / GetHealth read it
+//   (atomic.Value model: lib/trusted/r4E.spec; r4EAtomTick is covered by healthSets, ghostgroup[lead] in zz_contracts_r4E_verif.go).
 //@   requires n != nil
+//@   ensures[stored-in-the-health-cell] r4EHealthInit(n) && r4EHealthErr(n) == err
 //@   modifies healthSets, lastHealthErr, lastHealthNSQD
 //@   onreturn healthSets := healthSets + 1
 //@   onreturn lastHealthErr := err
